@@ -814,6 +814,9 @@ class Full(Exception):
     pass
 
 
+POLLED: set = set()      # canonical labels of queues that were ever asked without blocking (sticky for the life of the process)
+
+
 @late_bindable
 class Queue:
     def __init__(self, maxsize=0):
@@ -854,7 +857,7 @@ class Queue:
                 raise Full()
             self.s.op(self.lbl + '.put', lambda: len(self.q) < self.maxsize, act, True, note=_h(item), tmo=full)
         else:
-            self.s.op(self.lbl + '.put', _true, act, self.shared or self.maxsize > 0, note=_h(item))
+            self.s.op(self.lbl + '.put', _true, act, self.shared or self.maxsize > 0 or self.lbl in POLLED, note=_h(item))
 
     def put_nowait(self, item):
         self.put(item, block=False)
@@ -872,18 +875,28 @@ class Queue:
             if not self.q:
                 raise Empty()
             return self.q.popleft()
+        self._polled()
         return self.s.op(self.lbl + '.get_nowait', _true, act, True)
+
+    def _polled(self):
+        # the answer of a non-blocking question depends on its order with the producer's puts: they stop being 'safe' operations
+        if self.lbl not in POLLED:
+            POLLED.add(self.lbl)
+            self.s.notes.append(f'{self.lbl}: asked without blocking; its puts are scheduling points from now on')
 
     def get_nowait(self):
         return self.get(block=False)
 
     def empty(self):
+        self._polled()
         return self.s.op(self.lbl + '.empty', _true, lambda: not self.q, True)
 
     def qsize(self):
+        self._polled()
         return self.s.op(self.lbl + '.qsize', _true, lambda: len(self.q), True)
 
     def full(self):
+        self._polled()
         return self.s.op(self.lbl + '.full', _true, lambda: 0 < self.maxsize <= len(self.q), True)
 
     def task_done(self):
